@@ -7,9 +7,9 @@
    (that is the parser model's comment ledger); that the layout keeps a line comment from
    swallowing what follows it (known finding line-comment-inline).  Both are covered on every
    run by the comment-sequence oracle on the implementation and by the correspondence. *)
-From Coq Require Import List Bool NArith Strings.String.
+From Coq Require Import List Bool NArith Strings.String Permutation.
 From Falco Require Import Base.Bytes Model.FmtTok Model.FmtNorm
-  Proofs.FmtComments Proofs.FmtRestyle Proofs.FmtExamples.
+  Proofs.FmtComments Proofs.FmtRestyle Proofs.FmtSortStream Proofs.FmtExamples.
 Import ListNotations.
 
 Theorem C15_norm_comments_partial :
@@ -17,8 +17,18 @@ Theorem C15_norm_comments_partial :
   comments (norm c ts) ++ unprinted c ts = map (restyle c) (comments ts).
 Proof. exact norm_comments. Qed.
 
+(* every configuration, sort_declaration included: the same comments, each exactly once (as a
+   multiset of texts: sorting moves a comment with its declaration) *)
+Theorem C15_norm_comments_perm_partial :
+  forall c ts, Permutation (map ctx (comments (norm c ts)) ++ map ctx (unprinted c ts))
+                           (map ctx (map (restyle c) (comments ts))).
+Proof. exact norm_comments_perm. Qed.
+
+(* ... which are: nothing but own-line comments behind the last token - or every comment of a
+   file without a single token (the formatter prints an empty file for it) *)
 Theorem C15_unprinted_is_own_line_tail :
-  forall c ts, match unprinted c ts with [] => True | x :: _ => clf x = true end.
+  forall c ts, significant (norm c ts) = []
+               \/ match unprinted c ts with [] => True | x :: _ => clf x = true end.
 Proof. exact unprinted_own_line. Qed.
 
 (* the pass, from any state: exactly once, in order, none invented (holds with sorting too,
@@ -49,6 +59,7 @@ Theorem C15_example : norm ex_conf2 ex_src2 =
 Proof. exact ex_norm2. Qed.
 
 Print Assumptions C15_norm_comments_partial.
+Print Assumptions C15_norm_comments_perm_partial.
 Print Assumptions C15_unprinted_is_own_line_tail.
 Print Assumptions C15_run_comments.
 Print Assumptions C15_restyle_marker_only.
